@@ -121,7 +121,7 @@ func cmdVerify(args []string) {
 		keys = strings.Split(*fn, ",")
 	} else {
 		for _, k := range w.specs.Order {
-			if s := w.specs.Funcs[k]; !s.Trusted && s.Pkg != "builtin" {
+			if s := w.specs.Funcs[k]; (!s.Trusted || s.Flags["checkbody"] != "") && s.Pkg != "builtin" {
 				if f := w.funcs[k]; f != nil && len(f.Blocks) > 0 {
 					keys = append(keys, k)
 				}
@@ -241,8 +241,8 @@ func propFuncs(w *World, prop string) []string {
 	var keys []string
 	for _, k := range w.specs.Order {
 		s := w.specs.Funcs[k]
-		if s.Trusted || s.Pkg == "builtin" {
-			continue
+		if (s.Trusted && s.Flags["checkbody"] == "") || s.Pkg == "builtin" {
+			continue // ("flag checkbody": callers use the trusted postconditions, the body is still checked against its call-site clauses)
 		}
 		for _, p := range s.Props {
 			if p == prop {
